@@ -451,6 +451,20 @@ def handle (st : DState) (line : String) : String × DState :=
        | .ok (o, evs, _) => ("res=ok ev=" ++ listOrDash evs ++ " st=" ++ stateStr o, { st with w := { st.w with orb := o } })
        | .err t => ("res=err ev=- st=" ++ stateStr st.w.orb ++ " tag=" ++ t, st)
        | .panic s => ("res=panic ev=- st=" ++ stateStr st.w.orb ++ " tag=" ++ s, st))
+  | "msgh" :: rest =>
+    (match parseMsg rest with
+     | none => ("bad-op", st)
+     | some m =>
+       let hreq := match m with
+         | .replaceDepositForBurn s a b c d =>
+           if s == st.cfg.authority && Gen.forwardingRoutes.contains PROTOCOL_CCTP then
+             "cctp.ReplaceDepositForBurn:from=" ++ hxS orbBech ++ ":msg=" ++ hxB a ++ ":att=" ++ hxB b ++ ":caller=" ++ hxB c ++ ":mint=" ++ hxB d
+           else "-"
+         | _ => "-"
+       match msgStep st.cfg noFaults st.w.orb m with
+       | .ok (o, _, _) => ("res=ok hreq=" ++ hreq ++ " st=" ++ stateStr o, { st with w := { st.w with orb := o } })
+       | .err t => ("res=err hreq=" ++ hreq ++ " st=" ++ stateStr st.w.orb ++ " tag=" ++ t, st)
+       | .panic s => ("res=panic hreq=" ++ hreq ++ " st=" ++ stateStr st.w.orb ++ " tag=" ++ s, st))
   | "query" :: rest =>
     (match parseQuery rest with
      | none =>
